@@ -338,6 +338,21 @@ def r_online_flow(rep, prog):
             rep.check(good, rule, "%s|same-id" % cb.name, "fetch_free is evaluated for the tree passed to change_at",
                       "fetch_free is evaluated for a different tree than the one being changed", t["span"])
     rep.floor(rule, "change_at call sites", n, 1)
+    # the trait-level query the closure calls is the lower level's answer, whatever the frame: a guard in between that
+    # answers "nothing free" for some valid tree makes Online install 0 for it
+    used_trait = any(callee_name(t["callee"]) == "<llfree::llfree::LLFree as llfree::Alloc>::stats_at" for _, t in c.calls())
+    if used_trait:
+        sb = lib.need_body(prog, "<llfree::llfree::LLFree as llfree::Alloc>::stats_at")
+        rep.saw(sb.name)
+        stm = T.Terms(sb, prog)
+        rets = lib.assignments_to_return(sb)
+        good = bool(rets)
+        for bi, si, rv in rets:
+            t = stm.call_term(bi) if si == "term" else stm.rvalue(rv)
+            t = T.canon(t)
+            good = good and t[0] == "call" and t[1] == "llfree::lower::Lower::stats_at" and t[2][1:] == (("p", "frame"), ("p", "order"))
+        rep.check(good, rule, "LLFree::stats_at|forwards", "every result is lower.stats_at(frame, order)",
+                  "LLFree::stats_at (what Online rebuilds a tree counter from) does not return lower.stats_at(frame, order) on every path", sb.span)
 
 
 def run(rep, programs):
